@@ -22,8 +22,8 @@ Record BW (w : world) : Prop := mkBW {
 Lemma bounded_mono c (P P' : N -> N -> Prop) s : (forall n i, P n i -> P' n i) -> bounded c P s -> bounded c P' s.
 Proof.
   intros M [H1 H2]. constructor.
-  - intros n r Hin. specialize (H1 n r Hin). unfold ok_claim in *. destruct (N.eqb n (self c)); auto.
-  - intros k m Hin. specialize (H2 k m Hin). unfold ok_claim in *. destruct (N.eqb (mname m) (self c)); auto.
+  - intros n r Hin. specialize (H1 n r Hin). unfold ok_claim in *. destruct (N.eqb n (self c)); [destruct H1; auto | auto].
+  - intros k m Hin. specialize (H2 k m Hin). unfold ok_claim in *. destruct (N.eqb (mname m) (self c)); [destruct H2; auto | auto].
 Qed.
 
 (* a claim a node holds is within the owner's counter *)
@@ -31,6 +31,7 @@ Lemma ok_claim_owner w c s n inc :
   NoDup (names w) -> In (c, s) (wnodes w) -> ok_claim c (owner_le w) (linc s) n inc -> owner_le w n inc.
 Proof.
   intros Hu Hin H. unfold ok_claim in H. destruct (N.eqb_spec n (self c)) as [E|Hne]; [|exact H].
+  destruct H as [H|H]; [|exact H].
   intros c0 s0 H0 E0. assert (X : (c0, s0) = (c, s)) by (apply (unique_node w); auto; congruence).
   inversion X; subst. exact H.
 Qed.
@@ -39,7 +40,7 @@ Lemma owner_ok_claim w c s n inc :
   In (c, s) (wnodes w) -> owner_le w n inc -> ok_claim c (owner_le w) (linc s) n inc.
 Proof.
   intros Hin H. unfold ok_claim. destruct (N.eqb_spec n (self c)) as [E|Hne]; [|exact H].
-  apply (H c s Hin). symmetry. exact E.
+  left. apply (H c s Hin). symmetry. exact E.
 Qed.
 
 Lemma names_upd (l : list (cfg * nstate)) : forall i c s s', nth_error l i = Some (c, s) ->
@@ -190,8 +191,8 @@ Proof.
     rewrite Forall_forall in Hg. pose proof (Hg _ Hin) as [F [V A]]. cbn [fst] in *.
     split; [exact F|]. split; [apply boot_FInv; assumption|].
     rewrite (boot_eq c0 m0 A V). constructor; cbn [recs bq linc].
-    + intros n r [E'|[]]. inversion E'; subst. unfold ok_claim. rewrite N.eqb_refl. cbn. lia.
-    + intros k m [E'|[]]. inversion E'; subst. unfold ok_claim. cbn [mname minc]. rewrite N.eqb_refl. lia.
+    + intros n r [E'|[]]. inversion E'; subst. unfold ok_claim. rewrite N.eqb_refl. left. cbn. lia.
+    + intros k m [E'|[]]. inversion E'; subst. unfold ok_claim. cbn [mname minc]. rewrite N.eqb_refl. left. lia.
   - intros p [].
   - unfold names, boot_world; cbn [wnodes]. rewrite map_map. cbn [fst]. exact Hu.
 Qed.
